@@ -25,6 +25,9 @@ type C09OCase struct {
 	Between  int  `json:"between"`             // updates installed while parked, after the enable
 	After    int  `json:"after"`               // updates installed after the callback goroutine caught up
 	ErrAfter bool `json:"err_after,omitempty"` // a source error reported after catching up
+	// ErrsBefore: source errors reported while parked, before the enable (they
+	// are interleaved with the Before updates)
+	ErrsBefore int `json:"errs_before,omitempty"`
 }
 
 func genC09O(t *rapid.T) C09OCase {
@@ -37,6 +40,7 @@ func genC09O(t *rapid.T) C09OCase {
 	c.Between = rapid.IntRange(0, 3).Draw(t, "between")
 	c.After = rapid.IntRange(1, 4).Draw(t, "after")
 	c.ErrAfter = rapid.Bool().Draw(t, "err_after")
+	c.ErrsBefore = rapid.IntRange(0, 2).Draw(t, "errs_before")
 	return c
 }
 
@@ -120,8 +124,25 @@ func runC09O(c C09OCase) (verdict vrt.Verdict) {
 			return
 		}
 		synctest.Wait()
+		errsLeft := c.ErrsBefore
+		reportErrBefore := func() bool {
+			errsLeft--
+			if err := w.Args.ReportError(ctx, errPlainSource); err != nil {
+				fail("ReportError while the callback goroutine is parked returned %v", err)
+				return false
+			}
+			return true
+		}
 		for i := 0; i < c.Before; i++ {
+			if errsLeft > 0 && i%2 == 1 && !reportErrBefore() {
+				return
+			}
 			if report(fmt.Sprintf("update %d while the callback goroutine is parked, before the enable", i)) == nil {
+				return
+			}
+		}
+		for errsLeft > 0 {
+			if !reportErrBefore() {
 				return
 			}
 		}
@@ -148,6 +169,17 @@ func runC09O(c C09OCase) (verdict vrt.Verdict) {
 		}
 		release()
 		synctest.Wait() // the callback goroutine drains its queue
+		mu.Lock()
+		errsDrained := len(errs)
+		mu.Unlock()
+		if c.Delay && c.Suppress && errsDrained != 0 {
+			fail("%d source error(s) reported while the delay was in force and the suppress option set reached OnWatchedError once the callback goroutine caught up after the enable: what is withheld is decided when it happens, not when it is delivered", errsDrained)
+			return
+		}
+		if !(c.Delay && c.Suppress) && c.Before <= cbQueueCap/2 && errsDrained != c.ErrsBefore {
+			fail("%d source error(s) were reported (nothing suppressed, queue far from full) but OnWatchedError saw %d", c.ErrsBefore, errsDrained)
+			return
+		}
 		prev := d.View()
 		for i := 0; i < c.After; i++ {
 			mu.Lock()
@@ -195,7 +227,7 @@ func TestC09Overflow(t *testing.T) {
 	curT = t
 	vrt.Check(t, vrt.Prop[C09OCase]{
 		ID: "C09", Name: "lagging",
-		Rule: "Delay x Suppress option combinations; the callback goroutine is parked in a registered callback while 0..5 or 65..71 updates are installed (the latter overflows the 64-slot callback queue), EnableVerification is called (all configs valid), 0..3 more updates follow, the callback is released and the queue drains; then 1..4 updates and optionally a source error; inside a synctest bubble; " +
+		Rule: "Delay x Suppress option combinations; the callback goroutine is parked in a registered callback while 0..5 or 65..71 updates are installed (the latter overflows the 64-slot callback queue), EnableVerification is called (all configs valid; 0..2 source errors are reported among the earlier updates), 0..3 more updates follow, the callback is released and the queue drains; then 1..4 updates and optionally a source error; inside a synctest bubble; " +
 			"oracle: nothing reaches OnNewConfig while delay-in-force && suppress; the enable returns the installed config and serial; once the callback goroutine has caught up, every update is announced to OnNewConfig exactly once with (previous, installed) and a source error reaches OnWatchedError once - the end of the delay must not depend on an event that can be dropped; " +
 			"non-trivial = Delay and Suppress both set; distinct = distinct case JSON",
 		Assumptions: []string{"events submitted while the queue is full may be dropped (documented); only updates made after the queue drained are required to be announced"},
